@@ -11,58 +11,176 @@ From LC.V2 Require Import Tok SSet Match ScoringProof MatchND MatchWF.
 From LC.V2 Require Import Planted.
 
 (* the token-frequency prefilter passes every document contained in the input, for every threshold <= 1 *)
-(* statement as proved in V2/Planted.v (restated through its type) *)
-Theorem C01_prefilter_never_rejects : ltac:(let t := type of (@prefilter_planted) in exact t).
+(* statement as proved in V2/Planted.v (written out; checked against the lemma by exact) *)
+Theorem C01_prefilter_never_rejects :
+  forall (A K B : list N) (thr : f64),
+         K <> [] ->
+         (Z.of_nat (length K) < 2 ^ 53)%Z ->
+         fle thr fone = true ->
+         fle thr (token_similarity (count_ids (A ++ K ++ B) (FMapPositive.PositiveMap.empty N)) K) = true.
 Proof. exact (@prefilter_planted). Qed.
-Check C01_prefilter_never_rejects.
 Print Assumptions C01_prefilter_never_rejects.
 
 (* the q-gram join yields exactly the range [0,|K|) -> [|A|,|A|+|K|) with |K| claimed tokens, whatever the hash *)
-(* statement as proved in V2/Planted.v (restated through its type) *)
-Theorem C01_main_diagonal : ltac:(let t := type of (@main_diagonal) in exact t).
+(* statement as proved in V2/Planted.v (written out; checked against the lemma by exact) *)
+Theorem C01_main_diagonal :
+  forall (H : list N -> N) (q : nat) (A K B : list N),
+         1 <= q ->
+         q <= length K ->
+         forall src tgt : sset,
+         built_from H q K src ->
+         built_from H q (A ++ K ++ B) tgt ->
+         In
+           {|
+             src_start := 0;
+             src_end := N.of_nat (length K);
+             tgt_start := N.of_nat (length A);
+             tgt_end := N.of_nat (length A + length K);
+             claimed := N.of_nat (length K)
+           |} (target_matched_ranges src tgt).
 Proof. exact (@main_diagonal). Qed.
-Check C01_main_diagonal.
 Print Assumptions C01_main_diagonal.
 
 (* density window, fusion and claimed-token cut keep that range with exactly these bounds *)
-(* statement as proved in V2/Planted.v (restated through its type) *)
-Theorem C01_range_survives_fusion_and_cut : ltac:(let t := type of (@planted_potential_match) in exact t).
+(* statement as proved in V2/Planted.v (written out; checked against the lemma by exact) *)
+Theorem C01_range_survives_fusion_and_cut :
+  forall (H : list N -> N) (q : nat) (A K B : list N),
+         1 <= q ->
+         q <= length K ->
+         forall src tgt : sset,
+         built_from H q K src ->
+         built_from H q (A ++ K ++ B) tgt ->
+         forall thr : f64,
+         (trunc (fmul (of_Z (Z.of_nat (length K))) thr) <= Z.of_nat (length K))%Z ->
+         exists r : range,
+           In r (find_potential_matches src tgt thr) /\
+           src_start r = 0%N /\
+           src_end r = N.of_nat (length K) /\
+           tgt_start r = N.of_nat (length A) /\
+           tgt_end r = N.of_nat (length A + length K) /\ (N.of_nat (length K) <= claimed r)%N.
 Proof. exact (@planted_potential_match). Qed.
-Check C01_range_survives_fusion_and_cut.
 Print Assumptions C01_range_survives_fusion_and_cut.
 
 (* the planted span scores confidence exactly 1.0 with zero offsets *)
-(* statement as proved in V2/Planted.v (restated through its type) *)
-Theorem C01_exact_copy_scores_one : ltac:(let t := type of (@score_exact) in exact t).
+(* statement as proved in V2/Planted.v (written out; checked against the lemma by exact) *)
+Theorem C01_exact_copy_scores_one :
+  forall (C : config) (d : cdoc) (s e : N),
+         cf_diff C (cd_key d) s e = Some [(DEqual, cd_ids d)] ->
+         key_part (cd_key d) 1 <> None ->
+         (Z.of_nat (length (cd_ids d)) < 2 ^ 53)%Z -> score C d s e = Ok (fone, 0%Z, 0%Z).
 Proof. exact (@score_exact). Qed.
-Check C01_exact_copy_scores_one.
 Print Assumptions C01_exact_copy_scores_one.
 
 (* so the candidate list handed to the overlap filter contains the match: confidence 1.0, token span exactly the copy, lines of its first and last word, the names of the document *)
-(* statement as proved in V2/Planted.v (restated through its type) *)
-Theorem C01_candidate_present : ltac:(let t := type of (@C01_candidates_le1) in exact t).
+(* statement as proved in V2/Planted.v (written out; checked against the lemma by exact) *)
+Theorem C01_candidate_present :
+  forall (H : list N -> N) (q : nat) (A K B : list N) (C : config) (d : cdoc) 
+           (docs : list cdoc) (lines pseudo : list Z) (tset : sset) (res0 : results),
+         1 <= q ->
+         q <= length K ->
+         (Z.of_nat (length K) < 2 ^ 53)%Z ->
+         In d docs ->
+         cd_ids d = K ->
+         built_from H q K (cd_set d) ->
+         built_from H q (A ++ K ++ B) tset ->
+         SpecFloat.valid_binary prec emax (cf_thr C) = true ->
+         fle (cf_thr C) fone = true ->
+         cf_diff C (cd_key d) (N.of_nat (length A)) (N.of_nat (length A + length K)) =
+         Some [(DEqual, cd_ids d)] ->
+         key_part (cd_key d) 1 <> None ->
+         match_tokens C docs (A ++ K ++ B) lines pseudo tset = Ok res0 ->
+         exists (cs : list mtch) (sl el : Z) (nm vr ty : str),
+           nthZ lines (Z.of_nat (length A)) = Some sl /\
+           nthZ lines (Z.of_nat (length A) + Z.of_nat (length K) - 1) = Some el /\
+           key_part (cd_key d) 1 = Some nm /\
+           key_part (cd_key d) 2 = Some vr /\
+           key_part (cd_key d) 0 = Some ty /\
+           In
+             {|
+               m_name := nm;
+               m_type := ty;
+               m_variant := vr;
+               m_conf := fone;
+               m_sl := sl;
+               m_el := el;
+               m_st := Z.of_nat (length A);
+               m_et := Z.of_nat (length A) + Z.of_nat (length K) - 1
+             |} cs /\
+           r_matches res0 = filter_candidates (sort (less (cf_total_less C)) (map pseudo_match pseudo ++ cs)).
 Proof. exact (@C01_candidates_le1). Qed.
-Check C01_candidate_present.
 Print Assumptions C01_candidate_present.
 
 (* and it is in the result whenever every other candidate is line-isolated from it (copies separated by text on their own lines) *)
-(* statement as proved in V2/Planted.v (restated through its type) *)
-Theorem C01_reported_when_isolated : ltac:(let t := type of (@C01_reported) in exact t).
+(* statement as proved in V2/Planted.v (written out; checked against the lemma by exact) *)
+Theorem C01_reported_when_isolated :
+  forall (H : list N -> N) (q : nat) (A K B : list N),
+         1 <= q ->
+         q <= length K ->
+         (Z.of_nat (length K) < 2 ^ 53)%Z ->
+         forall (C : config) (d : cdoc) (docs : list cdoc) (lines pseudo : list Z) (tset : sset),
+         In d docs ->
+         cd_ids d = K ->
+         built_from H q K (cd_set d) ->
+         built_from H q (A ++ K ++ B) tset ->
+         fle (cf_thr C) fone = true ->
+         (trunc (fmul (of_Z (Z.of_nat (length K))) (cf_thr C)) <= Z.of_nat (length K))%Z ->
+         cf_diff C (cd_key d) (N.of_nat (length A)) (N.of_nat (length A + length K)) =
+         Some [(DEqual, cd_ids d)] ->
+         key_part (cd_key d) 1 <> None ->
+         forall res0 : results,
+         match_tokens C docs (A ++ K ++ B) lines pseudo tset = Ok res0 ->
+         (forall (cs : list mtch) (c : mtch),
+          r_matches res0 = filter_candidates (sort (less (cf_total_less C)) (map pseudo_match pseudo ++ cs)) ->
+          m_conf c = fone ->
+          m_st c = Z.of_nat (length A) ->
+          m_et c = (Z.of_nat (length A) + Z.of_nat (length K) - 1)%Z ->
+          In c cs ->
+          forall o : mtch,
+          In o (map pseudo_match pseudo ++ cs) ->
+          o = c \/ mcontains c o = false /\ overlaps c o = false /\ mcontains o c = false) ->
+         exists c : mtch,
+           In c (r_matches res0) /\
+           m_conf c = fone /\
+           m_st c = Z.of_nat (length A) /\
+           m_et c = (Z.of_nat (length A) + Z.of_nat (length K) - 1)%Z /\
+           Some (m_name c) = key_part (cd_key d) 1 /\
+           Some (m_variant c) = key_part (cd_key d) 2 /\
+           Some (m_type c) = key_part (cd_key d) 0 /\
+           Some (m_sl c) = nthZ lines (Z.of_nat (length A)) /\
+           Some (m_el c) = nthZ lines (Z.of_nat (length A) + Z.of_nat (length K) - 1).
 Proof. exact (@C01_reported). Qed.
-Check C01_reported_when_isolated.
 Print Assumptions C01_reported_when_isolated.
 
 (* the exact condition under which the overlap/containment filter keeps a candidate *)
-(* statement as proved in V2/Planted.v (restated through its type) *)
-Theorem C01_filter_keeps : ltac:(let t := type of (@filter_keeps) in exact t).
+(* statement as proved in V2/Planted.v (written out; checked against the lemma by exact) *)
+Theorem C01_filter_keeps :
+  forall (pre : list mtch) (c : mtch) (post : list mtch),
+         (forall o : mtch, In o pre -> o = c \/ mcontains c o = false /\ overlaps c o = false) ->
+         (forall o : mtch, In o post -> mcontains o c = false \/ flt (wconf c) (wconf o) = false) ->
+         In c (filter_candidates (pre ++ c :: post)).
 Proof. exact (@filter_keeps). Qed.
-Check C01_filter_keeps.
 Print Assumptions C01_filter_keeps.
 
 (* two different documents planted on the SAME line: only one is reported - the separation by unrelated text on its own lines in the property is essential *)
-(* statement as proved in V2/Planted.v (restated through its type) *)
-Theorem C01_isolation_is_needed : ltac:(let t := type of (@ex_C01_needs_isolation) in exact t).
+(* statement as proved in V2/Planted.v (written out; checked against the lemma by exact) *)
+Theorem C01_isolation_is_needed :
+  match_tokens cxCfg [cxD1; cxD2] (cxK1 ++ cxK2) [1%Z; 1%Z; 1%Z; 1%Z; 1%Z; 1%Z; 1%Z] []
+           (mk_sset exH 2 (cxK1 ++ cxK2)) =
+         Ok
+           {|
+             r_matches :=
+               [{|
+                  m_name := [100%N];
+                  m_type := [97%N];
+                  m_variant := [99%N];
+                  m_conf := fone;
+                  m_sl := 1;
+                  m_el := 1;
+                  m_st := 3;
+                  m_et := 6
+                |}];
+             r_total := 1
+           |}.
 Proof. exact (@ex_C01_needs_isolation). Qed.
-Check C01_isolation_is_needed.
 Print Assumptions C01_isolation_is_needed.
 
